@@ -70,7 +70,7 @@ func unhx(s string) []byte {
 
 // ---- generators ----
 
-var lens = []int{1, 1, 2, 2, 3, 3, 4, 5, 7, 8, 9, 16, 59, 60, 61, 119, 120, 121, 122, 239, 240, 241, 242, 300, 480, 481, 999, 1000, 1001}
+var lens = []int{1, 1, 2, 2, 3, 3, 4, 5, 7, 8, 9, 16, 59, 60, 61, 119, 120, 121, 122, 127, 128, 129, 239, 240, 241, 242, 255, 256, 257, 300, 384, 480, 481, 512, 999, 1000, 1001, 1024}
 
 func genLen(r *fw.Rand, tier string) int {
 	if r.Chance(0.5) {
@@ -215,6 +215,15 @@ type walFrame struct {
 	ty      byte
 	payload []byte
 	valid   bool
+	canon   uint64 // hash of the entry as it was handed to the encoder
+}
+
+func canonHash(e tsm1.WALEntry) uint64 {
+	h := uint64(14695981039346656037)
+	for _, c := range []byte(canonEntry(e)) {
+		h = (h ^ uint64(c)) * 1099511628211
+	}
+	return h
 }
 
 func genWal(r *fw.Rand) ([]walFrame, []byte) {
@@ -256,12 +265,14 @@ func genWal(r *fw.Rand) ([]walFrame, []byte) {
 			}
 			e = &tsm1.WriteWALEntry{Values: vals}
 		}
-		raw, err := e.Encode(nil)
+		// (the WAL hands the encoder a recycled buffer: every byte of the entry must be written)
+		dirty := bytes.Repeat([]byte{[]byte{0x01, 0xff, 0xaa, 0x00}[r.Intn(4)]}, 1<<16)
+		raw, err := e.Encode(dirty)
 		if err != nil {
 			continue
 		}
 		comp := snappy.Encode(nil, raw)
-		f := walFrame{ty: byte(e.Type()), payload: comp, valid: true}
+		f := walFrame{ty: byte(e.Type()), payload: comp, valid: true, canon: canonHash(e)}
 		if r.Chance(0.08) { // a frame whose payload does not decode
 			f.payload = bytes.Repeat([]byte{0xff}, 1+r.Intn(8))
 			f.valid = false
@@ -361,7 +372,7 @@ func (Prop) Generate(r *fw.Rand, tier string) []fw.Case {
 			if f.valid {
 				v = 1
 			}
-			fs = append(fs, fmt.Sprintf("%d:%d:%d", f.ty, len(f.payload), v))
+			fs = append(fs, fmt.Sprintf("%d:%d:%d:%x", f.ty, len(f.payload), v, f.canon))
 		}
 		var cuts []int
 		if tier == "thorough" || len(seg) < 200 {
@@ -956,6 +967,12 @@ func runOp(op string) (out string) {
 			}
 			if a, b := canonEntry(e), canonEntry(fresh); a != b {
 				return fmt.Sprintf("WAL-CONTENT-DIFFERS entry %d reads %.80s after the segment was read through, its frame holds %.80s", i, a, b)
+			}
+			// and it is what was handed to the encoder
+			if fr := strings.Split(f[2], ","); i < len(fr) {
+				if p := strings.Split(fr[i], ":"); len(p) == 4 && p[3] != "0" && p[3] != fmt.Sprintf("%x", canonHash(e)) {
+					return fmt.Sprintf("WAL-CONTENT-DIFFERS entry %d reads %.120s: not what was written", i, canonEntry(e))
+				}
 			}
 			off += 5 + l
 		}
